@@ -161,6 +161,10 @@ struct Ctx {
         if (const auto* S = dyn_cast<ClassTemplateSpecializationDecl>(RD)) {
             printTemplateArgumentList(os, S->getTemplateArgs().asArray(), PP);
         }
+        if (!RD->getIdentifier() && !RD->getTypedefNameForAnonDecl()) {
+            // several anonymous structs in one union would otherwise share a name
+            os << "@" << SM.getExpansionLineNumber(RD->getLocation());
+        }
         os.flush();
         return s;
     }
